@@ -3086,6 +3086,7 @@ static void thread_join_busywait(ABTI_thread *p_thread)
 {
     while (ABTD_atomic_acquire_load_int(&p_thread->state) !=
            ABT_THREAD_STATE_TERMINATED) {
+        ABTI_VERIF_SPIN_HINT(ABTI_VERIF_SITE_JOIN_BUSYWAIT, p_thread);
         ABTD_atomic_pause();
     }
     ABTI_event_thread_join(NULL, p_thread, NULL);
